@@ -9,6 +9,7 @@ Models (mirrors of the code in /repo, tied to it by the C15 correspondence run):
   Sql/ValueCodec.lean  EncodeRawValue / decodeValue (row values; nullable variant of the file sorter)
   Tx/Metadata.lean     TxMetadata.Bytes/ReadFrom, KVMetadata.Bytes/unsafeReadFrom
   Tx/HeaderCodec.lean  TxHeader.Bytes/ReadFrom
+  Tx/Export.lean       ExportTx (writer) / the parsing part of ReplicateTx — the exported-transaction frame
 
 Hypotheses are decidable predicates: `validKey ty maxLen v`, `orderSafe a b`, `validValue …`,
 `TxMd.wf`, `KVMd.wf`, `TxHdr.wf`.  All statements are for every value, length and byte suffix.
@@ -24,6 +25,7 @@ import ImmuModel.Sql.Proofs.KeyMain
 import ImmuModel.Sql.Proofs.ValueRT
 import ImmuModel.Tx.Proofs.MdRT
 import ImmuModel.Tx.Proofs.HdrRT
+import ImmuModel.Tx.Proofs.ExportRT
 
 namespace ImmuModel.Props.C15
 open ImmuModel ImmuModel.GoInt ImmuModel.Sql ImmuModel.Tx
@@ -326,6 +328,69 @@ theorem txmd_long_extra_rejected :
 and the version-1 header with a short tail are rejected. -/
 theorem txmd_overrun_rejected : txmdReadFrom [1, 0, 5, 0xaa] = .error .corrupted := by decide
 
+-- =============================================================== 6. exported transactions (ExportTx / ReplicateTx)
+
+/-- **Export round trip.** For every transaction `ExportTx` can be given — ANY list of entries, each
+with its own optional KV metadata (absent, or any well-formed non-empty metadata), any key and
+value/digest, either header version, values present or replaced by digests — the writer succeeds and
+the parsing part of `ReplicateTx` returns exactly that transaction (the header up to `norm`: an empty
+tx-metadata is read back as `nil`). -/
+theorem export_roundtrip (x : Parsed) (hw : x.wf = true) :
+    ∃ b, exportTx x = .ok b ∧ parseExported b = .ok { x with hdr := x.hdr.norm } :=
+  export_parse_roundtrip_aux x hw
+
+/-- **Entry frames round-trip for every entry list**, whatever follows them: the entry loop of
+`ReplicateTx` applied to the concatenated frames of `es` (entries with and without metadata in any
+order) followed by arbitrary bytes returns `es` and leaves exactly those bytes. -/
+theorem export_entries_roundtrip (es : List PEntry) (hes : es.all PEntry.wf = true) (tail : Bytes) :
+    parseEntries es.length (es.flatMap entryBytes ++ tail) = .ok (es, tail) :=
+  ExportRTAux.parseEntries_all es hes tail
+
+/-- **The frame of an entry does not depend on its neighbours**: the exported bytes are the header
+frame, the per-entry frames one after the other, and the trailer — splitting the entry list anywhere
+splits the bytes there (in particular what is written for an entry without metadata is the same
+whether or not an earlier entry carried some). -/
+theorem export_entry_frames_independent (x : Parsed) (es1 es2 : List PEntry) (hb : Bytes)
+    (hh : hdrBytes x.hdr = .ok hb) (he : x.entries = es1 ++ es2) :
+    exportTx x = .ok (beN Gen.storeLszSize hb.length ++ hb ++
+      (es1.flatMap entryBytes ++ es2.flatMap entryBytes) ++ trailerBytes x.truncated) := by
+  simp [exportTx, hh, he, List.flatMap_append]
+
+/-- **Per entry, what was committed is what a replica reads**: key, metadata (absent stays absent,
+present stays the same value) and value/digest of every entry, in order, and the truncation flag. -/
+theorem export_entries_preserved (x : Parsed) (hw : x.wf = true) (b : Bytes) (hb : exportTx x = .ok b) :
+    ∃ y, parseExported b = .ok y ∧ y.entries = x.entries ∧ y.truncated = x.truncated ∧
+      y.entries.map (·.md) = x.entries.map (·.md) := by
+  obtain ⟨b', h1, h2⟩ := export_parse_roundtrip_aux x hw
+  rw [hb] at h1
+  cases h1
+  exact ⟨_, h2, rfl, rfl, rfl⟩
+
+/-- **The export is injective**: two transactions with the same exported bytes have the same
+entries, the same truncation flag and the same header (up to the `nil`/empty tx-metadata). -/
+theorem export_injective (x y : Parsed) (hx : x.wf = true) (hy : y.wf = true) (b : Bytes)
+    (h1 : exportTx x = .ok b) (h2 : exportTx y = .ok b) :
+    x.entries = y.entries ∧ x.truncated = y.truncated ∧ x.hdr.norm = y.hdr.norm := by
+  obtain ⟨bx, ex, px⟩ := export_parse_roundtrip_aux x hx
+  obtain ⟨by', ey, py⟩ := export_parse_roundtrip_aux y hy
+  rw [h1] at ex
+  rw [h2] at ey
+  cases ex
+  cases ey
+  rw [px] at py
+  have h : ({ x with hdr := x.hdr.norm } : Parsed) = { y with hdr := y.hdr.norm } := Except.ok.inj py
+  obtain ⟨hh, he, ht⟩ := Parsed.mk.inj h
+  exact ⟨he, ht, hh⟩
+
+/-- Why `PEntry.wf` asks for NON-EMPTY metadata bytes: a non-nil `KVMetadata` without attributes is
+written with `mdLen = 0` and read back as `nil` (the tx log stores it the same way, so a committed
+transaction never carries one). -/
+theorem export_empty_metadata_reads_back_absent :
+    parseEntries 1 (entryBytes { key := [0x6b], md := some {}, payload := [7] }) =
+      .ok ([{ key := [0x6b], md := none, payload := [7] }], []) := by
+  set_option maxRecDepth 100000 in
+  decide
+
 -- =============================================================== non-vacuity
 
 example : validKey .integer 8 (.int (-9223372036854775808)) = true := by decide
@@ -342,5 +407,12 @@ example : (⟨some 5, some [1, 2, 3]⟩ : TxMd).wf = true := by decide
 example : (⟨true, some (-1), true⟩ : KVMd).wf = true := by decide
 example : ({ id := 2, ts := -5, blTxID := 1, version := 1, md := some ⟨some 1, none⟩, nentries := 70000 } : TxHdr).wf = true := by
   decide
+
+/-- a transaction mixing entries with and without metadata, in both orders -/
+example : ({ hdr := { id := 2, ts := 5, blTxID := 1, version := 1, nentries := 4 },
+             entries := [⟨[1], some ⟨true, none, false⟩, [9]⟩, ⟨[2], none, []⟩,
+                         ⟨[3], some ⟨false, some 1700000000, true⟩, [8, 8]⟩, ⟨[4], none, [7]⟩],
+             truncated := false } : Parsed).wf = true := by decide
+
 
 end ImmuModel.Props.C15
